@@ -144,6 +144,17 @@ func VerifyFunc(prog *Program, fi *FuncInfo, tier string) (res *UnitResult) {
 			u.reg.note("declared error drop in " + fi.Key + ": " + d)
 		}
 	}
+	u.forbidSites = map[*ast.CallExpr]*Clause{}
+	if u.con != nil {
+		for _, c := range u.con.Forbids {
+			name := strings.Fields(c.Text)[0]
+			for _, sn := range findCallSites(prog, fi, name+"#*") {
+				if site, ok := sn.(*ast.CallExpr); ok {
+					u.forbidSites[site] = c
+				}
+			}
+		}
+	}
 	if u.con != nil {
 		for _, c := range u.con.Asserts {
 			if c.At == "return" {
